@@ -234,11 +234,57 @@ pub fn run(ctx: &mut Ctx) -> (&'static str, String, bool) {
         }
         ctx.merge(p);
     }
+    // ---- connections made by Builder::tcp over loopback ---------------------------------------------------------
+    if !miri {
+        use crate::realconn::builder_tcp_session;
+        let n = ctx.tier.pick(8u64, 80u64);
+        let base = ctx.rng.fork(6006);
+        let parts: Vec<(Part, Option<String>)> = (0..n)
+            .into_par_iter()
+            .map(|i| {
+                let mut p = Part::new();
+                let mut r = base.fork(i);
+                let which = if i % 2 == 0 { Impl::Blocking } else { Impl::Tokio };
+                let compressed = (i / 2) % 2 == 0;
+                let stream = super::c05::make_stream(c, &mut r, compressed, 200, true);
+                let nw = if i % 4 == 3 { 1500 } else { 40 };
+                match builder_tcp_session(c, &mut r, which, compressed, stream, nw) {
+                    Ok(o) => {
+                        p.evaluations += 1;
+                        p.count("builder_tcp_sessions", 1);
+                        p.count("builder_tcp_packets_written", o.written_frames.len() as u64);
+                        let expected: Vec<u8> = o.written_frames.concat();
+                        p.distinct(&(which.name(), &expected));
+                        let skip = 4 * o.keepalives;
+                        let got = if o.outgoing.len() >= skip { &o.outgoing[skip..] } else { &o.outgoing[..0] };
+                        if let Some(e) = &o.write_error {
+                            p.violation(format!("C06/{}/builder-tcp/write-failed", which.name()), format!("{}: write failed on a healthy connection: {e}", o.label), json!({"label": o.label}));
+                        } else if got != &expected[..] {
+                            let at = got.iter().zip(expected.iter()).position(|(a, b)| a != b).unwrap_or(got.len().min(expected.len()));
+                            p.violation(
+                                format!("C06/{}/builder-tcp/bytes-differ", which.name()),
+                                format!("{}: {} packets written = {} bytes; the peer received {} bytes after the keep-alive replies (first difference at {at})", o.label, o.written_frames.len(), expected.len(), got.len()),
+                                json!({"label": o.label, "expected_len": expected.len(), "received_len": got.len(), "first_difference": at}),
+                            );
+                        }
+                        (p, None)
+                    },
+                    Err(e) => (p, Some(e)),
+                }
+            })
+            .collect();
+        for (p, e) in parts {
+            ctx.merge(p);
+            if let Some(e) = e {
+                ctx.inconclusive(format!("builder TCP session could not be judged: {e}"));
+            }
+        }
+    }
     ctx.assume("only writes that returned Ok create an obligation; after an injected hard error the accepted bytes must still be a prefix of the expected stream");
     ctx.assume("Interrupted (EINTR) is injected for the blocking transport only, where std's write_all semantics define it as retryable");
     (
         "fault_enumeration",
-        "every composition of short frames (<=12 bytes) into per-call accepted counts x Pending 0..2 before every call x {blocking,tokio} x both modes; sequences of 1..24 packets of every kind under 1-byte, 3-byte, all-but-one, random and everything-at-once acceptance with Pending / EINTR injection; hard errors mid-frame; distinct = distinct (impl, mode, packets, plan)".into(),
+        "every composition of short frames (<=12 bytes) into per-call accepted counts x Pending 0..2 before every call x {blocking,tokio} x both modes; sequences of 1..24 packets of every kind under 1-byte, 3-byte, all-but-one, random and everything-at-once acceptance with Pending / EINTR injection; hard errors mid-frame; tokio also over a buffering transport whose flush is Pending 0-2 times; connections made by Builder::tcp over loopback writing 40 / 1500 packets that the peer reads to EOF; distinct = distinct (impl, mode, packets, plan)".into(),
         true,
     )
 }
